@@ -43,7 +43,7 @@ BASE_POOL = ['a', 'b', 'c', 'f1', 'f2', 'f10', 'BRAND', 'ANDROID', 'AND', 'HANDL
 DASH_POOL = ['user-id', 'a-b', 'BRAND-NEW', 'x-(1; 2)']
 MI_HEUR = ['MI-numba-randomized', 'MI', 'AMI', 'MI-numba-3mr']
 OTHER_HEUR = ['surrogate-SGD', 'surrogate-SVM', 'max-value-coverage', 'correlation-Pearson', 'Constant']
-SCORE_MODES = ['grid'] * 3 + ['unit', 'signed', 'wide'] * 2 + ['const']
+SCORE_MODES = ['grid'] * 3 + ['unit', 'signed', 'wide'] * 2 + ['const', 'tiny', 'nearequal']
 
 KNOWN_PLAIN_AND = False  # set in run() when KNOWN_FINDINGS.txt lists key=plain-name-containing-AND
 
@@ -51,6 +51,10 @@ KNOWN_PLAIN_AND = False  # set in run() when KNOWN_FINDINGS.txt lists key=plain-
 # ---- generator ---------------------------------------------------------------------------------------
 
 def _score(mode):
+    if mode == 'tiny':        # MI estimates of the order 1e-9: distinct, but "close" for absolute tolerances
+        return st.integers(1, 9).map(lambda k: k * 1e-9)
+    if mode == 'nearequal':   # near-equal features differing in the 6th significant digit
+        return st.integers(0, 9).map(lambda k: 0.73 + k * 1e-6)
     if mode == 'grid':
         return st.integers(-3, 5).map(float)
     if mode == 'unit':
